@@ -11,12 +11,11 @@ import (
 // inert) so that Go's race detector sees the real memory accesses.
 func TestRacePass(t *testing.T) {
 	for _, sc := range props.C14Scenarios() {
-		// solo outcomes
+		// the concurrent iterations come BEFORE the solo runs: lazily initialised process-wide state
+		// is then first touched by several goroutines at once
 		n := len(sc.Build())
 		solo := make([]string, n)
-		for i := 0; i < n; i++ {
-			solo[i] = sc.Build()[i]()
-		}
+		all := make([][]string, 0, 60)
 		for iter := 0; iter < 60; iter++ {
 			bodies := sc.Build()
 			outs := make([]string, len(bodies))
@@ -32,6 +31,12 @@ func TestRacePass(t *testing.T) {
 			}
 			close(start)
 			wg.Wait()
+			all = append(all, outs)
+		}
+		for i := 0; i < n; i++ {
+			solo[i] = sc.Build()[i]()
+		}
+		for _, outs := range all {
 			for i := range outs {
 				if outs[i] != solo[i] {
 					t.Fatalf("OUTCOME-MISMATCH scenario %s thread %d: %q, alone %q", sc.Name, i, outs[i], solo[i])
